@@ -16,7 +16,6 @@ import hashlib
 import json
 import os
 import re
-import resource
 import shutil
 import signal
 import subprocess
@@ -78,29 +77,52 @@ class MemSem:
             self.cv.notify_all()
 
 
+def group_rss_kb(pgid):
+    """Sum of resident set sizes (kB) of all processes in process group pgid."""
+    try:
+        out = subprocess.run(["ps", "-eo", "pgid=,rss="], capture_output=True, text=True).stdout
+    except Exception:
+        return 0
+    tot = 0
+    for line in out.splitlines():
+        parts = line.split()
+        if len(parts) == 2 and parts[0] == str(pgid):
+            tot += int(parts[1])
+    return tot
+
+
 def run_capped(cmd, cwd, timeout_s, mem_gb, logfile, env=None):
-    """Run cmd in its own process group under RLIMIT_AS and a wall-clock timeout."""
-    def pre():
-        os.setsid()
-        lim = int(mem_gb * (1 << 30))
-        resource.setrlimit(resource.RLIMIT_AS, (lim, lim))
+    """Run cmd in its own process group under a wall-clock timeout and a resident-memory cap
+    (a watchdog polls the group's RSS; RLIMIT_AS is not used because CBMC/rustc reserve far more
+    address space than they touch).  Returns (rc, why_killed or None, wall_s, peak_rss_gb)."""
     t0 = time.time()
+    peak = 0
+    killed = None
     with open(logfile, "w") as lf:
-        p = subprocess.Popen(cmd, cwd=cwd, stdout=lf, stderr=subprocess.STDOUT, env=env or ENV, preexec_fn=pre)
-        timed_out = False
-        try:
-            p.wait(timeout=timeout_s)
-        except subprocess.TimeoutExpired:
-            timed_out = True
+        p = subprocess.Popen(cmd, cwd=cwd, stdout=lf, stderr=subprocess.STDOUT, env=env or ENV, start_new_session=True)
+        while True:
             try:
-                os.killpg(p.pid, signal.SIGKILL)
-            except ProcessLookupError:
+                p.wait(timeout=2.0)
+                break
+            except subprocess.TimeoutExpired:
                 pass
-            p.wait()
-    return p.returncode, timed_out, time.time() - t0
+            rss = group_rss_kb(p.pid)
+            peak = max(peak, rss)
+            if time.time() - t0 > timeout_s:
+                killed = "timeout"
+            elif rss > mem_gb * (1 << 20):
+                killed = "memory"
+            if killed:
+                try:
+                    os.killpg(p.pid, signal.SIGKILL)
+                except ProcessLookupError:
+                    pass
+                p.wait()
+                break
+    return p.returncode, killed, time.time() - t0, round(peak / (1 << 20), 2)
 
 
-CHECK_RE = re.compile(r"^Check (\d+): (\S+)\n\t - Status: (\w+)\n\t - Description: \"(.*)\"\n(?:\t - Location: (.*)\n)?", re.M)
+CHECK_RE = re.compile(r"^Check (\d+): (.+)\n\t - Status: (\w+)\n\t - Description: \"(.*)\"\n(?:\t - Location: (.*)\n)?", re.M)
 
 
 def parse_kani_log(text):
@@ -162,7 +184,7 @@ def kani_cmd(h, target_dir):
     if h.get("features"):
         cmd += ["--features", ",".join(h["features"])]
     cmd += ["--target-dir", target_dir, "--harness", full, "--exact", "--no-memory-safety-checks",
-            "-Z", "concrete-playback", "--concrete-playback=print", "-Z", "stubbing", "-v"]
+            "-Z", "concrete-playback", "--concrete-playback=print", "-Z", "stubbing"]
     cmd += h.get("kani_args", [])
     return cmd
 
@@ -203,19 +225,25 @@ class Run:
         d = self.scratch_for(h)
         mem = h.get("mem_gb", 6)
         timeout_s = h.get("timeout", 600)
+        if os.environ.get("VERIF_DEV_CAP"):
+            timeout_s = min(timeout_s, int(os.environ["VERIF_DEV_CAP"]))
         w = self.sem.acquire(mem)
         try:
             logfile = os.path.join(d, "logs", h["name"] + ".log")
-            rc, timed_out, wall = run_capped(kani_cmd(h, os.path.join(d, "target")), d, timeout_s, max(mem, 6) + 2, logfile)
+            rc, killed, wall, peak = run_capped(kani_cmd(h, os.path.join(d, "target")), d, timeout_s, mem, logfile)
         finally:
             self.sem.release(w)
         text = open(logfile, errors="replace").read()
         res = parse_kani_log(text)
-        res.update({"name": h["name"], "rc": rc, "timed_out": timed_out, "wall_s": round(wall, 1), "log": logfile})
+        res.update({"name": h["name"], "rc": rc, "killed": killed, "wall_s": round(wall, 1), "peak_rss_gb": peak, "log": logfile})
         # classification
         covers_ok = bool(res["covers"]) and all(c["status"] == "SATISFIED" for c in res["covers"])
-        if timed_out:
+        if killed == "timeout":
             res["class"] = "inconclusive"; res["why"] = f"timeout after {timeout_s}s"
+        elif killed == "memory":
+            res["class"] = "inconclusive"; res["why"] = f"memory cap {mem} GB exceeded"
+        elif "Status: ERROR" in text:
+            res["class"] = "inconclusive"; res["why"] = "CBMC reported Status: ERROR (resource exhaustion or internal error)"
         elif res["verdict"] is None:
             oom = "std::bad_alloc" in text or "Out of memory" in text or "memory allocation" in text
             res["class"] = "inconclusive"; res["why"] = "out of memory" if oom else "no verdict (build or tool error)"
@@ -257,7 +285,8 @@ def replay_native(run, h, res, pb, idx):
     env = dict(ENV)
     env["CARGO_TARGET_DIR"] = os.path.join(run.base, "replay-target")
     env["RUST_BACKTRACE"] = "0"
-    rc, timed_out, wall = run_capped(cmd, d, h.get("replay_timeout", 600), 24, logfile, env=env)
+    rc, killed, wall, _peak = run_capped(cmd, d, h.get("replay_timeout", 600), 24, logfile, env=env)
+    timed_out = killed == "timeout"
     text = open(logfile, errors="replace").read()
     ran = "running 1 test" in text
     reproduced = False
@@ -315,14 +344,18 @@ def cmd_check(args):
         seed = int(os.environ.get("VERIF_SEED", "0"))
     except ValueError:
         seed = 0
-    hs = registry.select(pid, tier)
+    if pid != "DEV":
+        hs = registry.select(pid, tier)
+    else:
+        hs = [h for h in registry.HARNESSES if tier == "thorough" or "quick" in h["props"].values()]
     if args.only:
         hs = [h for h in hs if any(o in h["name"] for o in args.only)]
     if not hs:
         log(f"verif: no harness registered for {pid} at tier {tier}")
         return 2
     # seed only permutes scheduling order among equal-cost harnesses (there is no sampling)
-    hs = sorted(hs, key=lambda h: (-h.get("timeout", 600), hashlib.sha1((str(seed) + h["name"]).encode()).hexdigest()))
+    sign = 1 if pid == "DEV" else -1
+    hs = sorted(hs, key=lambda h: (sign * h.get("timeout", 600), hashlib.sha1((str(seed) + h["name"]).encode()).hexdigest()))
     run = Run(pid, tier, seed, keep=args.keep)
     known = load_known()
     t0 = time.time()
@@ -335,7 +368,7 @@ def cmd_check(args):
                 h = futs[fut]
                 res = fut.result()
                 results[h["name"]] = res
-                log(f"  [{res['class']:>14}] {h['name']:<40} {res['wall_s']:>7.1f}s checks={res['checks']} "
+                log(f"  [{res['class']:>14}] {h['name']:<40} {res['wall_s']:>7.1f}s rss={res['peak_rss_gb']}G checks={res['checks']} "
                     f"clauses={res['clauses']} {res.get('why', '')}")
         violations, knowns, inconclusive, nonrepro = [], [], [], []
         for h in hs:
@@ -383,7 +416,8 @@ def cmd_check(args):
             if res.get("tail") and args.verbose:
                 log(res["tail"])
         wall = time.time() - t0
-        write_evidence(run, hs, results, violations, knowns, inconclusive, nonrepro, wall)
+        if pid != "DEV":
+            write_evidence(run, hs, results, violations, knowns, inconclusive, nonrepro, wall)
         if violations:
             return 1
         if inconclusive or nonrepro:
@@ -415,7 +449,7 @@ def write_evidence(run, hs, results, violations, knowns, inconclusive, nonrepro,
             "harness": h["name"], "verdict": r["class"], "why": r.get("why"), "bound": h.get("bound", ""),
             "kani_checks": r["checks"], "covers": [c["status"] for c in r["covers"]], "vccs": r["vccs"],
             "variables": r["vars"], "clauses": r["clauses"], "symex_steps": r["symex_steps"],
-            "solver_s": r["solver_s"], "kani_verification_s": r["verif_time"], "wall_s": r["wall_s"],
+            "solver_s": r["solver_s"], "kani_verification_s": r["verif_time"], "wall_s": r["wall_s"], "peak_rss_gb": r.get("peak_rss_gb"),
             "replays": r.get("replays", []),
         })
         if wit:
